@@ -188,36 +188,63 @@ Proof. exact dict_order. Qed.
 Print Assumptions C34_dict_order.
 
 (* ---- on the parse trees of the builder model (Model/Build.v, C01/C06) ----
-   [abs g mm t] is the object/token tree process_node sees in the Peg parse tree t (it follows
-   pnode's choice of children); its object nodes are the common-rule nodes with (tpos, tend). *)
+   [abs g mm meta t] is the object/reference/token tree process_node sees in the Peg parse tree t
+   (it follows pnode's choice of children; meta = _tx_attrs of the enclosing object's class);
+   object nodes are the common-rule nodes with (tpos, tend), reference nodes are the children read
+   by non-containment reference assignments with (tpos, tend). *)
 
 (* "key = span of the object's node in the parse tree": every key of the position map is
    (tpos, tend) of a common-rule node t' of the parse tree, the value is that node's rule. *)
-Theorem C34_dict_key_is_node_span : forall g mm t nd s e i,
-  In nd (abs g mm t) -> In (s, e, i) (rule_dict nd) ->
+Theorem C34_dict_key_is_node_span : forall g mm meta t nd s e i,
+  In nd (abs g mm meta t) -> In (s, e, i) (rule_dict nd) ->
   exists t', In t' (subtrees t) /\ is_common mm t' /\
              i = tree_nid t' /\ s = N.of_nat (Build.tpos t') /\ e = N.of_nat (Build.tend t').
 Proof. exact dict_key_is_node_span. Qed.
 Print Assumptions C34_dict_key_is_node_span.
 
+(* every collected reference carries the span of a node of the parse tree *)
+Theorem C34_ref_is_tree_node : forall g mm meta t nd x,
+  In nd (abs g mm meta t) -> In x (refs_pre nd) ->
+  exists k, In k (subtrees t) /\ cstart x = N.of_nat (Build.tpos k) /\ cend x = N.of_nat (Build.tend k).
+Proof. exact ref_is_tree_node. Qed.
+Print Assumptions C34_ref_is_tree_node.
+
 (* Every object the builder creates (every VObj inside the value pnode returns, at any depth,
-   for every grammar/metamodel table, input and option setting of Build.v's fragment) carries
-   the span of a common-rule node of the parse tree, and that span is a key of the position map. *)
+   for every grammar/metamodel table, input and option setting of Build.v) carries the span of a
+   common-rule node of the parse tree, and that span is a key of the position map. *)
 Theorem C34_built_objects_are_keys : forall g mm input grp auto use_grp t v top',
   pnode g mm input grp auto use_grp t None = BOk (v, top') ->
-  forall p e, In (p, e) (vspans v) ->
+  forall p e, In (IObj (N.of_nat p) (N.of_nat e)) (vitems v) ->
   (exists t', In t' (subtrees t) /\ is_common mm t' /\ p = Build.tpos t' /\ e = Build.tend t') /\
-  exists nd i, In nd (abs g mm t) /\ In (N.of_nat p, N.of_nat e, i) (rule_dict nd).
+  exists nd i, In nd (abs g mm [] t) /\ In (N.of_nat p, N.of_nat e, i) (rule_dict nd).
 Proof. exact built_objects_spans_and_keys. Qed.
 Print Assumptions C34_built_objects_are_keys.
 
+(* C34_entry_exact connected to the builder: every pending reference the builder creates
+   (VRef name position class, at any depth of the value) is a collected reference; the entry
+   made for it has ref_pos_start = the VRef's position = start of the reference node k of the
+   parse tree, and ref_pos_end = end of that node. *)
+Theorem C34_built_ref_entry : forall g mm input grp auto use_grp t v top',
+  pnode g mm input grp auto use_grp t None = BOk (v, top') ->
+  forall p, In (IRef (N.of_nat p)) (vitems v) ->
+  exists nd x k, In nd (abs g mm [] t) /\ In x (refs_pre nd) /\ In k (subtrees t) /\ p = Build.tpos k /\
+                 forall tg, e_start (mk_entry (x, tg)) = N.of_nat p /\
+                            e_end (mk_entry (x, tg)) = N.of_nat (Build.tend k).
+Proof. exact built_ref_entry. Qed.
+Print Assumptions C34_built_ref_entry.
+
+(* A: b=B r=[C] ; the reference child is the terminal at 9..11 *)
 Example C34_build_nonvacuous :
   let g := mkGrammar [] 0 None in
-  let mm := [IRule RCommon [65]%N [mkAttr [98]%N M1 true false [66]%N false]; IAsgn [98]%N OpPlain; IRule RCommon [66]%N []; IOther] in
-  let t := NT 0 [NT 1 [NT 2 [T 3 2 3 false; T 3 7 1 false]]] in
-  pnode g mm [] (fun _ _ => None) false false t None = BOk (VObj [65]%N 2 8 [([98]%N, VObj [66]%N 2 8 [])], None) /\
-  map rule_dict (abs g mm t) = [[(2%N, 8%N, 2)]].
-Proof. vm_compute. split; reflexivity. Qed.
+  let mm := [IRule RCommon [65]%N [mkAttr [98]%N M1 true false [66]%N false; mkAttr [114]%N M1 false true [67]%N false];
+             IAsgn [98]%N OpPlain; IRule RCommon [66]%N []; IOther; IAsgn [114]%N OpPlain] in
+  let t := NT 0 [NT 1 [NT 2 [T 3 2 3 false; T 3 7 1 false]]; NT 4 [T 3 9 2 false]] in
+  (match pnode g mm [] (fun _ _ => None) false false t None with
+   | BOk (v, _) => vitems v = [IObj 2 11; IObj 2 8; IRef 9]%N
+   | _ => False end) /\
+  map rule_dict (abs g mm [] t) = [[(2%N, 8%N, 2); (2%N, 11%N, 0)]] /\
+  map (fun nd => map (fun x => (cstart x, cend x)) (refs_pre nd)) (abs g mm [] t) = [[(9%N, 11%N)]].
+Proof. vm_compute. repeat split; reflexivity. Qed.
 Print Assumptions C34_build_nonvacuous.
 
 (* non-vacuity for the position map: Wrap(1) = Mid(2) = Core(3) share a span, a second Wrap(4)
